@@ -99,14 +99,27 @@ theorem invB {s : State κ ν} (hr : Reach (lts fixedCfg) s) : InvB s := by
 /-! ### the timer: late by exactly the clock time between `Now()` and `NewTimer()`, never early -/
 
 def InvT (s : State κ ν) : Prop :=
-  (∀ r, s.pc = .arming r → s.timer = r.time - s.readAt ∧ s.readAt ≤ s.now) ∧
-  (∀ r, s.pc = .armed r → s.timer = r.time + (s.armAt - s.readAt) ∧ s.readAt ≤ s.armAt ∧ s.armAt ≤ s.now)
+  0 ≤ s.now ∧
+  (∀ r, s.pc = .arming r → s.timer = satDur (r.time - s.readAt) ∧ 0 ≤ s.readAt ∧ s.readAt ≤ s.now ∧
+    halfMs ≤ r.time - s.readAt) ∧
+  (∀ r, s.pc = .armed r → s.timer = s.armAt + satDur (r.time - s.readAt) ∧ 0 ≤ s.readAt ∧
+    s.readAt ≤ s.armAt ∧ s.armAt ≤ s.now ∧ halfMs ≤ r.time - s.readAt)
+
+theorem satDur_cases (d : Int) : (d ≤ maxDur ∧ minDur ≤ d ∧ satDur d = d) ∨ (maxDur < d ∧ satDur d = maxDur) ∨
+    (d < minDur ∧ satDur d = minDur) := by
+  unfold satDur
+  split
+  · exact Or.inr (Or.inl ⟨by assumption, rfl⟩)
+  · split
+    · exact Or.inr (Or.inr ⟨by assumption, rfl⟩)
+    · exact Or.inl ⟨by omega, by omega, rfl⟩
 
 theorem invT_step {s s' : State κ ν} {a : Label κ ν} (h : InvT s)
     (hst : step fixedCfg s a = some s') : InvT s' := by
   unfold InvT at *
   cases a <;> step_cases hst <;> (try (simp only [process]; split)) <;> (try split) <;>
-    (first | grind | (simp_all; grind))
+    (first | grind | (simp_all; done) | (simp_all; grind) |
+      (rename_i r _ hnd; have := satDur_cases (r.time - s.now); simp_all [halfMs, Kit.Generated.C06.runNowMarginNs, maxDur, minDur]; grind))
 
 theorem invT {s : State κ ν} (hr : Reach (lts fixedCfg) s) : InvT s := by
   induction hr with
@@ -116,12 +129,15 @@ theorem invT {s : State κ ν} (hr : Reach (lts fixedCfg) s) : InvT s := by
 /-! ### timing: an item on its way to the callback is due (within the half-millisecond margin) -/
 
 def InvC (s : State κ ν) : Prop :=
-  ∀ r, (s.pc = .firing r ∨ s.pc = .popped r) → r.time - halfMs < s.now
+  ∀ r, (s.pc = .firing r ∨ s.pc = .popped r) → r.time - halfMs < s.now ∨ maxDur ≤ s.now
 
 theorem invC_step {s s' : State κ ν} {a : Label κ ν} (hT : InvT s) (h : InvC s)
     (hst : step fixedCfg s a = some s') : InvC s' := by
   unfold InvC at *
   unfold InvT at hT
+  have hsat := fun d : Int => satDur_cases d
+  have hmax : (maxDur : Int) = 9223372036854775807 := rfl
+  have hmin : (minDur : Int) = -9223372036854775808 := rfl
   cases a <;> step_cases hst <;> (try (simp only [process]; split)) <;> (try split) <;>
     (first | grind | (simp_all [halfMs, Kit.Generated.C06.runNowMarginNs]; grind))
 
@@ -198,7 +214,7 @@ theorem invG {s : State κ ν} (hr : Reach (lts fixedCfg) s) : InvG s := by
 def EvOK (e : Event κ ν) (l : List (Event κ ν)) : Prop :=
   match e with
   | .pop r => IsMin (live l) r ∧ Event.pop r ∉ l ∧ Event.closeRet ∉ l
-  | .exec r n => r.time - halfMs < n ∧ Event.pop r ∈ l ∧ (∀ m, Event.exec r m ∉ l) ∧ Event.closeRet ∉ l
+  | .exec r n => (r.time - halfMs < n ∨ maxDur ≤ n) ∧ Event.pop r ∈ l ∧ (∀ m, Event.exec r m ∉ l) ∧ Event.closeRet ∉ l
   | .enq r => ∀ r', Event.enq r' ∈ l → r'.id < r.id
   | _ => True
 
